@@ -3,7 +3,7 @@
     rebench/model/termination_check.py on every run (Gen/GenTermination.v). *)
 From Coq Require Import List ZArith Bool.
 Import ListNotations.
-From RV Require Import Gen.GenTermination Model.Retry Proofs.RetryP.
+From RV Require Import Gen.GenTermination Gen.GenClassify Model.Retry Proofs.RetryP.
 Local Open Scope Z_scope.
 
 (** For every outcome sequence, -f setting and configuration: the invocations recorded are
@@ -80,6 +80,32 @@ Theorem C04_stops_when_terminated :
     run_loop f c s outs = (tr, sf, fin) -> (fin = true <-> terminated c sf = true).
 Proof. exact loop_finishes_terminated. Qed.
 Print Assumptions C04_stops_when_terminated.
+
+(** The model's classification of a finished process IS the code's: the if / elif / else chain of
+    Executor._generate_data_point on the exit status is regenerated from the source on every run
+    (Gen/GenClassify.rc_classify), and the hand-written Model.Retry.classify is proved equal to it
+    for every exit status, both switches and every kind of output.  The shape of the branches (127:
+    fail_immediately + executable_missing + stop; failure: indicate_failed_execution without looking at
+    the output; otherwise _eval_output, which records every data point and indicates success, or
+    indicates a failure when the adapter rejects; OSError: fail_immediately + stop) are obligations
+    read off the source as well. *)
+Theorem C04_classification_is_the_code :
+  (forall f c rc out,
+     classify f c (OExit rc out) =
+       match rc_classify f (r_ignore_timeouts c) rc with
+       | RMissing => C127
+       | RFailed => CFail
+       | REvaluate => match adapter_result f out with Some n => COk n | None => CFail end
+       end)
+  /\ missing_branch_ok = true /\ failed_branch_ok = true /\ evaluate_branch_ok = true
+  /\ oserror_branch_ok = true /\ eval_output_ok = true.
+Proof.
+  split; [|repeat split; reflexivity].
+  intros f c rc out. unfold classify, rc_classify, E_TIMEOUT.
+  destruct (rc =? 127)%Z; [reflexivity|].
+  destruct (rc =? 0)%Z, f, (rc =? -9)%Z, (r_ignore_timeouts c); reflexivity.
+Qed.
+Print Assumptions C04_classification_is_the_code.
 
 (** Non-vacuity: two failures in a row with retries_after_failure = 2 end the run after the
     second; a success in between resets the count. *)
